@@ -11,7 +11,9 @@ RULE = ("dynamic-scope topologies: 1..5 schema resources (embedded or Loader doc
         "neither on a uniquely marked subschema; entered in a random order through $ref / allOf / $dynamicRef-without-fragment hops "
         "(chain) or through two different properties (fork: several Validate calls on one Resolved take different dynamic paths); the "
         "final $dynamicRef in fragment, resource-relative or pointer form; expected target computed here from the specification's "
-        "rule (outermost declaring resource in scope, else the initial target). Non-trivial: >= 2 resources; distinct = operation text")
+        "rule (outermost declaring resource in scope, else the initial target); dag: 2..4 Loader documents referring to one another in a "
+        "directed acyclic graph (diamonds), entered from 2..4 use sites whose names / positions are shuffled, so that the order in which "
+        "documents are first met is independent of the evaluation paths. Non-trivial: >= 2 resources; distinct = operation text")
 TRUSTED = ["python oracle implementing the outermost-resource rule for the expected marks"]
 BASE = "http://x.test/dyn/root.json"
 
@@ -274,11 +276,149 @@ def topo(rng, decoy_p=0.3):
             "meta": {"expect": None, "resources": k + 1, "kinds": kinds, "topo": True}}
 
 
+def dag(rng):
+    """Several Loader DOCUMENTS that refer to one another in a directed acyclic graph (diamonds), entered from several use sites of the
+    root: documents 1..m (m = 2..4), the last one (X) holds the $dynamicRef '#N'; every other document hops ($ref / allOf / fragment-less
+    $dynamicRef) to a LATER document, so two use sites reach X along different paths (root -> X directly, root -> L -> X, root -> L1 ->
+    L2 -> X, ...) and one document is referenced from several places. The use sites are properties with shuffled names (or array
+    positions), so the order in which the resolver first meets — and loads — the documents is independent of the order of the
+    evaluation paths. Each document may carry one embedded resource on its path (the hop, or in X the $dynamicRef itself, then sits in
+    the embedded resource), each declaring $dynamicAnchor N / $anchor N / nothing; the root mostly declares nothing. A Loader
+    document only ever refers to the ROOT of another Loader document or into itself (no instance of known finding D9).
+    Expected marks from the specification's rule (outermost declaring resource on the path, else the initial target)."""
+    m = rng.randint(2, 4)
+    X = m
+    nres = m + 1
+    kinds = [rng.choice(["none", "none", "none", "dyn"])] + [rng.choice(["dyn", "dyn", "anchor", "none"]) for _ in range(m)]
+    kinds[X] = rng.choice(["dyn", "dyn", "dyn", "dyn", "anchor", "none"])
+    emb = {}                                   # host document -> resource index of its embedded resource
+    for h in range(m + 1):
+        if rng.random() < 0.2:
+            emb[h] = nres
+            kinds.append(rng.choice(["dyn", "dyn", "anchor", "none"]))
+            nres += 1
+    if X in emb and rng.random() < 0.7:
+        kinds[emb[X]] = "dyn"
+    bodies = {}
+    for i in range(nres):
+        b = Obj()
+        if i > 0:
+            b.set("$id", res_name(i))
+        if kinds[i] != "none":
+            b.set("$defs", Obj([("x", target_def(kinds[i], i))]))
+        bodies[i] = b
+
+    def hop(to):
+        h = rng.random()
+        if h < 0.6:
+            return [("$ref", res_name(to))]
+        if h < 0.85:
+            return [("allOf", [wrap(rng, Obj([("$ref", res_name(to))]), rng.randint(0, 1))])]
+        return [("$dynamicRef", res_name(to))]
+
+    def put(i, kvs):
+        for kk, vv in kvs:
+            bodies[i].set(kk, vv)
+
+    # the path a document contributes: itself, then its embedded resource if it has one
+    def seg(i):
+        return [i, emb[i]] if i in emb and i > 0 else [i]
+
+    nxt = {}
+    for i in range(1, m):
+        nxt[i] = rng.randint(i + 1, m)
+    for i in range(1, m + 1):
+        s = seg(i)
+        if len(s) == 2:
+            put(i, hop(s[1]))
+        last = s[-1]
+        if i == X:
+            put(last, [("$dynamicRef", rng.choice(["#N", "#N", "#N", res_name(last) + "#N"]))])
+        else:
+            put(last, hop(nxt[i]))
+
+    def path_from(d):
+        p = []
+        while True:
+            p += seg(d)
+            if d == X:
+                return p
+            d = nxt[d]
+
+    # use sites: the first two enter different documents; every later one any document
+    nsites = rng.randint(2, 4)
+    entries = rng.sample(range(1, m + 1), 2) + [rng.randint(1, m) for _ in range(nsites - 2)]
+    if X not in entries and rng.random() < 0.6:
+        entries[rng.randrange(len(entries))] = X
+    names = rng.sample(["a", "b", "c", "d", "e", "f"], nsites)
+    sites, paths = [], []
+    emb_to = None
+    if 0 in emb:
+        # the resource embedded in the root document hops to one document; the sites that go through it share that hop
+        emb_to = rng.randint(1, m)
+        put(emb[0], hop(emb_to))
+    for s_i, d in enumerate(entries):
+        if emb_to is not None and rng.random() < 0.4:
+            sites.append(wrap(rng, Obj([("$ref", res_name(emb[0]))]), rng.randint(0, 1)))
+            paths.append([0, emb[0]] + path_from(emb_to))
+        else:
+            sites.append(wrap(rng, Obj(hop(d)), rng.randint(0, 2)))
+            paths.append([0] + path_from(d))
+    f = paths[0][-1]
+    exps = [expected(kinds, p, "frag", f) for p in paths]
+    root = bodies[0]
+    arr = rng.random() < 0.3
+    if arr:
+        root.set("prefixItems", sites)
+    else:
+        root.set("properties", Obj([(nm, st) for nm, st in zip(names, sites)]))
+    defs = root.get("$defs") or Obj()
+    docs = []
+    for h, e in emb.items():
+        if h == 0:
+            defs.kvs.append(("res%d" % e, bodies[e]))
+        else:
+            hd = bodies[h].get("$defs") or Obj()
+            hd.kvs.append(("res%d" % e, bodies[e]))
+            bodies[h].set("$defs", hd)
+    if defs.kvs:
+        root.set("$defs", defs)
+    order = list(range(1, m + 1))
+    rng.shuffle(order)
+    for i in order:
+        docs.append(["http://x.test/dyn/" + res_name(i), bodies[i]])
+    insts, expv = [], []
+    if arr:
+        import itertools
+        combos = list(itertools.product(range(nres), repeat=nsites))
+        if len(combos) > 24:
+            combos = rng.sample(combos, 20)
+        combos.append(tuple(e if e is not None else 0 for e in exps))
+        for ms in combos:
+            insts.append([mark(x) for x in ms])
+            expv.append(all(e == x for e, x in zip(exps, ms)))
+        for x in range(nres):
+            insts.append([mark(x)])
+            expv.append(exps[0] == x)
+    else:
+        seq = [(s_i, x) for s_i in range(nsites) for x in range(nres)]
+        rng.shuffle(seq)
+        for s_i, x in seq:
+            insts.append(Obj([(names[s_i], mark(x))]))
+            expv.append(exps[s_i] == x)
+        insts.append(Obj([(nm, mark(e if e is not None else 0)) for nm, e in zip(names, exps)]))
+        expv.append(True)
+    if any(e is None for e in exps):
+        expv = None
+    return {"op": "validate", "args": {"schema": root, "docs": docs, "base": BASE, "loader": True, "insts": insts},
+            "meta": {"expect": expv, "resources": nres, "kinds": kinds, "dag": True, "paths": paths, "entries": entries}}
+
+
 def gen(rng, tier, n):
     ops = [o for o in suite.suite_ops("draft2020-12") if "dynamicRef" in o["meta"]["suite"] or "dynamic" in o["meta"]["suite"]]
     while len(ops) < n:
         r = rng.random()
-        ops.append(chain(rng) if r < 0.5 else fork(rng) if r < 0.65 else topo(rng))
+        ops.append(chain(rng) if r < 0.46 else fork(rng) if r < 0.6 else dag(rng) if r < 0.68 else topo(rng))
     return ops
 
 
